@@ -23,7 +23,7 @@
 (* TraceWindow.tla replays events recorded from the real drivers through   *)
 (* the same actions.                                                       *)
 (***************************************************************************)
-EXTENDS Values, TLC
+EXTENDS Values, TLC, WindowIdx
 
 CONSTANTS MaxLen,     \* largest series length explored
           MaxWExtra   \* windows 0 .. len + MaxWExtra
@@ -102,13 +102,14 @@ Begin ==
     /\ UNCHANGED <<len, len2, w, form, body, pos, calls, written, reads, err>>
 
 \* the window the body works with: the *_to bodies clamp it to the length first
-EffW == IF body = "to" THEN Min2(w, len) ELSE w
+\* (the index arithmetic is WindowIdx.tla's: WindowProof.tla proves it in bounds for every length and window)
+EffW == EffWOf(body = "to", w, len)
 
-DrvStart(i) == IF i >= EffW - 1 THEN i - EffW + 1 ELSE NONE
+DrvStart(i) == IF HasStart(i, EffW) THEN StartOf(i, EffW) ELSE NONE
 
 DrvReads(i) ==
     LET st == DrvStart(i)
-        lo == Max2(0, i - EffW + 1)
+        lo == LoOf(i, EffW)
         two == form \in Forms2
     IN  CASE form \in {"apply", "apply2"} ->
                {<<1, i>>} \cup (IF st = NONE THEN {} ELSE {<<1, st>>})
@@ -122,7 +123,7 @@ Step ==
     /\ pc = "run" /\ pos < len
     /\ reads' = DrvReads(pos)
     /\ calls' = Append(calls, <<IF form \in Slicing THEN NONE ELSE DrvStart(pos),
-                                Max2(0, pos - EffW + 1), pos + 1>>)
+                                LoOf(pos, EffW), HiOf(pos)>>)
     /\ written' = written \cup {pos}
     /\ err' = IF pos \in written THEN err \cup {"double_write"} ELSE err
     /\ pos' = pos + 1
